@@ -34,7 +34,8 @@ RULE = ("templates rendered from a random item tree: text / ## comments / <%doc>
         "mixed text+${} lines (multi-line expressions, filters, calls in filters), % control blocks (if/elif/else, for, "
         "while, with, try/except; backslash continuations), <% %> and <%! %> blocks (inline and multi-line, blank "
         "leading lines, margins), <%def> / <%block> / <%page> / <%call> / <%ns:def> (single- and multi-line tags, "
-        "multi-line attribute values, attributes on later lines), <%namespace> with nested defs, include/inherit; "
+        "multi-line attribute values, attributes on later lines), <%namespace> with nested defs, include/inherit, "
+        "<%page>/<%inherit> written with a body; "
         "nesting depth <= 3; calls _(m), gettext(m), ngettext(s, p, n) with unique messages at random places; "
         "translator-comment blocks (1-3 ## lines, configured tag) at distance 0/1/2 lines, separated by text or by a "
         "message-less construct, followed by untagged ## lines; LF/CRLF; str input and bytes in utf-8 / latin-1 / "
@@ -370,6 +371,12 @@ class Gen:
     def nsdefs_item(self, depth):
         return {"t": "nsdefs", "name": "nsd%d" % self.uid(), "body": [self.def_item(depth + 1) for _ in range(self.rng.randint(1, 2))]}
 
+    def bodytag_item(self, depth):
+        """a <%page> / <%inherit> tag written with a body (mako renders such a body)"""
+        r = self.rng
+        return {"t": "bodytag", "open": r.choice(['<%page cached="False">', '<%inherit file="base.html">']),
+                "body": self.seq(depth + 1, r.randint(1, 2))}
+
     def construct(self, depth, allow_filter_call=True):
         r = self.rng
         k = r.random()
@@ -394,7 +401,9 @@ class Gen:
             return self.call_item(depth)
         if k < 0.97:
             return self.nscall_item(depth)
-        return self.nsdefs_item(depth)
+        if k < 0.99:
+            return self.nsdefs_item(depth)
+        return self.bodytag_item(depth)
 
     def seq(self, depth, n):
         """a sibling sequence; translator-comment scenarios are composed here"""
@@ -671,10 +680,19 @@ class Render:
             self.children(it, hidden)
             self.w(it["ind"] + "</%" + it["ns"] + ":" + it["name"] + ">\n")
 
+    def r_bodytag(self, it, scope, hidden):
+        name = it["open"][2:].split()[0].rstrip(">")
+        if name == "page":      # a PageTag is a Python-bearing construct (its signature), an InheritTag is not
+            self.construct(scope, "page", [], hidden)
+        self.w(it["open"] + "\n")
+        sc = self.new_scope()
+        self.seq(it["body"], sc, "skip")
+        self.w("</%" + name + ">\n")
+
     def r_nsdefs(self, it, scope, hidden):
         self.w('<%namespace name="' + it["name"] + '">\n')
         sc = self.new_scope()
-        self.seq(it["body"], sc, True)
+        self.seq(it["body"], sc, hidden if hidden == "skip" else "ns")   # "ns": inside a <%namespace> body
         self.w("</%namespace>\n")
 
 
@@ -861,6 +879,8 @@ class Impl:
             kind, code, kids = "page", n.body_decl.code, n.nodes
         elif isinstance(n, pt.CallNamespaceTag):
             kind, code, kids = "nscall", n.expression, n.nodes
+        elif isinstance(n, pt.NamespaceTag):
+            kind, kids = "namespace", n.nodes
         elif isinstance(n, pt.ControlLine):
             kind, code = ("ctlend" if n.isend else "ctl"), n.text
         elif isinstance(n, pt.Code):
@@ -1060,7 +1080,7 @@ def classify_comments(t, got, info, tags, doc_lines=(), truth=None):
         # (or below <%namespace>): the comment moves on to the next construct of that line - same root cause
         adj0 = next((b for b in info if b["end"] + 1 == t["cline"] and b["tr"]), None)
         if adj0 is not None and adj0["target"] and got == adj0["tr"] and \
-                all(truth[k]["in_filter"] or truth[k]["hidden"] for k in adj0["target"]):
+                all(truth[k]["in_filter"] or truth[k]["hidden"] == "ns" for k in adj0["target"]):
             return ("call-in-expression-filter-not-extracted" if any(truth[k]["in_filter"] and not truth[k]["hidden"] for k in adj0["target"])
                     else "call-inside-namespace-tag-body-not-extracted")
     if (len(got) > len(exp) and got[len(got) - len(exp):] == exp) if exp else bool(got):
@@ -1109,7 +1129,9 @@ def check_results(flavor, res, truth, info, rd, tags):
     for key, t in truth.items():
         hits = seen.get(key, [])
         if not hits:
-            if t["hidden"]:
+            if t["hidden"] == "skip":
+                bad.append(("call-inside-page-or-inherit-tag-body-not-extracted", "%s(%r) at line %d inside the body of a <%%page>/<%%inherit> tag is not reported" % (t["fn"], key, t["line"])))
+            elif t["hidden"]:
                 bad.append(("call-inside-namespace-tag-body-not-extracted", "%s(%r) at line %d inside <%%namespace> is not reported" % (t["fn"], key, t["line"])))
             elif t["in_filter"]:
                 bad.append(("call-in-expression-filter-not-extracted", "%s(%r) at line %d in a filter list is not reported" % (t["fn"], key, t["line"])))
@@ -1608,7 +1630,7 @@ def witness_cases():
         # F7
         case([{"t": "def", "sig": "f(a=_('m2 w'))", "calls": [_c("m2 w")], "extra": [], "layout": "late", "extra_first": False,
                "body": [], "inline": False, "ind": ""}]),
-        # F-C20-1
+        # repaired (79d0bc8): defs written inside <%namespace>
         case([{"t": "nsdefs", "name": "ns", "body": [{"t": "def", "sig": "f()", "calls": [], "extra": [], "layout": "flat",
                "extra_first": False, "body": [_x("_('m3 w')", [_c("m3 w")])], "inline": True, "ind": ""}]}]),
         # F-C20-2 / F-C20-3
@@ -1622,6 +1644,8 @@ def witness_cases():
         case([_cm("TR: x"), _x("_('m8 w')", [_c("m8 w")])], ("TR", "TR:")),
         # F-C20-7
         case([_cm("TR: a\x0cb"), {"t": "blank", "n": 1, "ws": False}, _x("_('m9 w')", [_c("m9 w")])]),
+        # F-C20-9: body of a <%page> tag
+        case([{"t": "bodytag", "open": '<%page cached="False">', "body": [_x("_('m13 w')", [_c("m13 w")])]}]),
         # repaired (must stay repaired): filter list on the line after the '|' (ca5ce72)
         case([_x("_('m10 w')", [_c("m10 w")], {"src": "f(_('m11 w'))", "calls": [_c("m11 w")], "nl": True})]),
         # repaired: codec configured as input_encoding only (0b42cfd)
@@ -1647,7 +1671,7 @@ def run(ctx):
     for case in oracle_cases[:2000]:
         rd = Render(case["tree"], case["tags"])
         for m in rd.calls.values():
-            ctx.branch("planted:" + m["kind"] + (":late" if m["late"] else "") + (":hidden" if m["hidden"] else ""))
+            ctx.branch("planted:" + m["kind"] + (":late" if m["late"] else "") + ((":" + m["hidden"]) if m["hidden"] else ""))
         for c in rd.comments:
             ctx.branch("planted:##-line")
 
